@@ -1,3 +1,557 @@
-import GoStd.Bytes
+/-
+C09 — Concurrent listeners and backend changes never corrupt or kill the proxy.
+
+"With several listeners of one service receiving traffic simultaneously over UDP and TCP while
+backends are added and removed, the proxy neither crashes nor deadlocks nor loses messages: every
+request still reaches exactly one backend of its listener and every response returns to its
+sender. No two threads of the proxy touch shared routing state without synchronisation."
+
+This file is the GENERAL THEORY behind the last sentence (and the lock-order part of "nor
+deadlocks"). The tie to the Go code is the regenerated ACCESS TABLE: every read/write of a field
+of a shared structure with the set of mutexes syntactically held there. Model: Side.Lockset
+(threads = straight-line lists of `acq l | rel l | access x w`, Go `sync.Mutex` semantics, any
+interleaving, any number of threads and steps).
+
+  * `held_sound`, `holder_complete`, `mutual_exclusion`: the syntactic held-set of a
+    well-bracketed program IS the set of locks the thread really holds, in every reachable state;
+  * `C09_disciplined_no_race` (MAIN): well-bracketed + lock-set discipline ⇒ no reachable state
+    is a data race;
+  * `C09_undisciplined_races`, `C09_unbracketed_races`: both hypotheses are needed;
+  * `C09_no_lock_cycle_no_deadlock`, `C09_no_total_deadlock`, `C09_progress`: a rank that
+    increases along nested acquisitions excludes every wait-for cycle, and (with well-bracketed,
+    balanced programs) the system can always move until every thread has finished;
+  * `C09_table_disciplined` (+ `…_roles`, `…_all`): a table that passes the Boolean check and
+    describes the system makes the system `Disciplined`.
+
+What is NOT modelled: channels, `sync.RWMutex` read-sharing (treat `RLock` as `Lock`: sound for
+race freedom), atomics, goroutine creation (all threads exist from the start: more interleavings,
+so sound), branching (one thread per path).
+-/
+import Side.Lockset
+import Lemmas.Lockset
+open Side.Lockset Lemmas.Lockset
+set_option autoImplicit false
+
 namespace Props.C09
+
+/-! ## The syntactic held-set is the real one -/
+
+/-- `held_sound`: in every reachable state of a well-bracketed system, a lock in the syntactic
+held-set of thread `t` at its program counter is really held by `t`. -/
+theorem held_sound {sys : Sys} (hwb : WellBracketed sys) {σ : State} (hr : Reachable sys σ) :
+    ∀ t l, l ∈ held (progOf sys t) (σ.pc t) → σ.holder l = some t := by
+  induction hr with
+  | init => intro t l hl; simp [init] at hl
+  | @step σ σ' _ hs ih =>
+    intro t l hl
+    cases hs with
+    | acq u l' hn hfree =>
+      simp only [advance] at hl ⊢
+      by_cases htu : t = u
+      · subst htu
+        rw [upd_same, held_succ hn, mem_stepHeld_acq] at hl
+        rcases hl with rfl | hl
+        · simp
+        · have := ih t l hl
+          have hne : l ≠ l' := by intro h; subst h; rw [hfree] at this; cases this
+          rw [upd_other _ _ hne]; exact this
+      · rw [upd_other _ _ htu] at hl
+        have := ih t l hl
+        have hne : l ≠ l' := by intro h; subst h; rw [hfree] at this; cases this
+        rw [upd_other _ _ hne]; exact this
+    | rel u l' v hn hv =>
+      simp only [advance] at hl ⊢
+      have hmine : σ.holder l' = some u :=
+        ih u l' (((wellBracketed_progOf hwb u) (σ.pc u) l').2 hn)
+      by_cases htu : t = u
+      · subst htu
+        rw [upd_same, held_succ hn, mem_stepHeld_rel] at hl
+        rw [upd_other _ _ hl.2]; exact ih t l hl.1
+      · rw [upd_other _ _ htu] at hl
+        have := ih t l hl
+        have hne : l ≠ l' := by
+          intro h; subst h; rw [hmine] at this; exact htu (Option.some.inj this).symm
+        rw [upd_other _ _ hne]; exact this
+    | access u x w hn =>
+      simp only [advance] at hl ⊢
+      by_cases htu : t = u
+      · subst htu
+        rw [upd_same, held_succ hn, stepHeld_access] at hl
+        exact ih t l hl
+      · rw [upd_other _ _ htu] at hl
+        exact ih t l hl
+
+/-- The converse (no hypothesis on the programs): a lock whose recorded holder is `u` is in the
+syntactic held-set of `u`. In particular only threads of the system ever hold locks. -/
+theorem holder_complete {sys : Sys} {σ : State} (hr : Reachable sys σ) :
+    ∀ l u, σ.holder l = some u → l ∈ held (progOf sys u) (σ.pc u) := by
+  induction hr with
+  | init => intro l u h; simp [init] at h
+  | @step σ σ' _ hs ih =>
+    intro l u h
+    cases hs with
+    | acq v l' hn hfree =>
+      simp only [advance] at h ⊢
+      by_cases hl : l = l'
+      · subst hl
+        rw [upd_same] at h
+        cases h
+        rw [upd_same, held_succ hn, mem_stepHeld_acq]; exact Or.inl rfl
+      · rw [upd_other _ _ hl] at h
+        have := ih l u h
+        by_cases huv : u = v
+        · subst huv
+          rw [upd_same, held_succ hn, mem_stepHeld_acq]; exact Or.inr this
+        · rw [upd_other _ _ huv]; exact this
+    | rel v l' w hn hw =>
+      simp only [advance] at h ⊢
+      by_cases hl : l = l'
+      · subst hl; rw [upd_same] at h; cases h
+      · rw [upd_other _ _ hl] at h
+        have := ih l u h
+        by_cases huv : u = v
+        · subst huv
+          rw [upd_same, held_succ hn, mem_stepHeld_rel]; exact ⟨this, hl⟩
+        · rw [upd_other _ _ huv]; exact this
+    | access v x w hn =>
+      simp only [advance] at h ⊢
+      have := ih l u h
+      by_cases huv : u = v
+      · subst huv
+        rw [upd_same, held_succ hn, stepHeld_access]; exact this
+      · rw [upd_other _ _ huv]; exact this
+
+/-- In a well-bracketed system the held-set and the holder map say the same thing. -/
+theorem held_iff_holder {sys : Sys} (hwb : WellBracketed sys) {σ : State} (hr : Reachable sys σ)
+    (t : ThreadId) (l : Lock) : l ∈ held (progOf sys t) (σ.pc t) ↔ σ.holder l = some t :=
+  ⟨held_sound hwb hr t l, holder_complete hr l t⟩
+
+/-- `mutual_exclusion`, stated for the held-sets: in every reachable state two different threads
+never both have `l` in their syntactic held-sets. -/
+theorem mutual_exclusion {sys : Sys} (hwb : WellBracketed sys) {σ : State} (hr : Reachable sys σ)
+    {t₁ t₂ : ThreadId} (hne : t₁ ≠ t₂) (l : Lock)
+    (h₁ : l ∈ held (progOf sys t₁) (σ.pc t₁)) : l ∉ held (progOf sys t₂) (σ.pc t₂) := by
+  intro h₂
+  have e₁ := held_sound hwb hr t₁ l h₁
+  have e₂ := held_sound hwb hr t₂ l h₂
+  rw [e₁] at e₂
+  exact hne (Option.some.inj e₂)
+
+/-- In a well-bracketed system every `rel` that comes up is executed by the holder, hence is
+enabled: the model's choice for "unlock of a mutex one does not hold" never matters. -/
+theorem rel_by_holder {sys : Sys} (hwb : WellBracketed sys) {σ : State} (hr : Reachable sys σ)
+    {t : ThreadId} {l : Lock} (hn : next sys σ t = some (.rel l)) : σ.holder l = some t :=
+  held_sound hwb hr t l (((wellBracketed_progOf hwb t) (σ.pc t) l).2 hn)
+
+/-- …and every `acq` that comes up is for a lock the thread does not already hold (no
+self-deadlock). -/
+theorem acq_not_self {sys : Sys} (hwb : WellBracketed sys) {σ : State} (hr : Reachable sys σ)
+    {t : ThreadId} {l : Lock} (hn : next sys σ t = some (.acq l)) : σ.holder l ≠ some t := by
+  intro h
+  exact ((wellBracketed_progOf hwb t) (σ.pc t) l).1 hn (holder_complete hr l t h)
+
+/-! ## Main theorem -/
+
+/-- MAIN THEOREM. If every program is well-bracketed and the system obeys the lock-set discipline
+(purely syntactic conditions on the programs), then no reachable state — any number of threads,
+any number of steps, any interleaving — is a data race. -/
+theorem C09_disciplined_no_race {sys : Sys} (hwb : WellBracketed sys) (hd : Disciplined sys) :
+    ∀ σ, Reachable sys σ → ¬ DataRace sys σ := by
+  intro σ hr ⟨t₁, t₂, x, w₁, w₂, hne, h₁, h₂, hw⟩
+  obtain ⟨l, hl₁, hl₂⟩ := hd t₁ t₂ (σ.pc t₁) (σ.pc t₂) x w₁ w₂ hne h₁ h₂ hw
+  exact mutual_exclusion hwb hr hne l hl₁ hl₂
+
+/-! ## Table-shaped facts -/
+
+theorem rowsOK_share {r₁ r₂ : AccessRow} (h : rowsOK r₁ r₂ = true) (hloc : r₁.loc = r₂.loc)
+    (hw : (r₁.write || r₂.write) = true) : ∃ l, l ∈ r₁.locks ∧ l ∈ r₂.locks := by
+  unfold rowsOK at h
+  simp only [Bool.or_eq_true, bne_iff_ne, ne_eq, Bool.not_eq_true', List.any_eq_true,
+    List.contains_iff_mem] at h
+  rcases h with (h | h) | h
+  · exact absurd hloc h
+  · have hw' : (r₁.write || r₂.write) = true := hw
+    rw [h] at hw'; cases hw'
+  · obtain ⟨l, h₁, h₂⟩ := h
+    exact ⟨l, h₁, h₂⟩
+
+/-- General bridge (goroutine roles): the table passes the Boolean check, every access position
+of thread `t` is described by a row of role `role t`, and roles not marked `multi` have a single
+instance. Then the system is `Disciplined`. -/
+theorem C09_table_disciplined_roles {multi : Nat → Bool} {role : ThreadId → Nat}
+    {rows : List AccessRow} {sys : Sys}
+    (htab : TableDisciplinedRoles multi rows = true) (hdesc : DescribesRoles role rows sys)
+    (hsingle : SingleInstance multi role sys) : Disciplined sys := by
+  intro t₁ t₂ p₁ p₂ x w₁ w₂ hne h₁ h₂ hw
+  obtain ⟨r₁, hr₁, hx₁, hw₁, ht₁, hl₁⟩ := hdesc t₁ p₁ x w₁ h₁
+  obtain ⟨r₂, hr₂, hx₂, hw₂, ht₂, hl₂⟩ := hdesc t₂ p₂ x w₂ h₂
+  unfold TableDisciplinedRoles at htab
+  rw [List.all_eq_true] at htab
+  have := htab r₁ hr₁
+  rw [List.all_eq_true] at this
+  have hok := this r₂ hr₂
+  rw [Bool.or_eq_true] at hok
+  have hshare : rowsOK r₁ r₂ = true := by
+    rcases hok with hsame | hok
+    · exfalso
+      rw [Bool.and_eq_true] at hsame
+      obtain ⟨hs, hm⟩ := hsame
+      have hs' : r₁.thread = r₂.thread := by simpa using hs
+      have hm' : multi r₁.thread = false := by simpa using hm
+      rw [ht₁] at hm'
+      exact hne (hsingle t₁ t₂ (lt_length_of_getElem? h₁) (lt_length_of_getElem? h₂)
+        (by rw [← ht₁, ← ht₂]; exact hs') hm')
+    · exact hok
+  obtain ⟨l, hm₁, hm₂⟩ := rowsOK_share hshare (by rw [hx₁, hx₂]) (by rw [hw₁, hw₂]; exact hw)
+  exact ⟨l, hl₁ l hm₁, hl₂ l hm₂⟩
+
+/-- BRIDGE. A system whose every access position is described by a row of the table (with that
+thread's id) is `Disciplined` when `TableDisciplined rows = true`. -/
+theorem C09_table_disciplined {rows : List AccessRow} {sys : Sys}
+    (htab : TableDisciplined rows = true) (hdesc : Describes rows sys) : Disciplined sys := by
+  apply C09_table_disciplined_roles (multi := fun _ => false) (role := fun t => t) (rows := rows)
+  · unfold TableDisciplinedRoles
+    unfold TableDisciplined at htab
+    simpa using htab
+  · exact hdesc
+  · intro t₁ t₂ _ _ h _; exact h
+
+/-- Bridge for code that may run in any number of goroutines: the `thread` column is ignored,
+every pair of rows (a row with itself included) is checked. -/
+theorem C09_table_disciplined_all {rows : List AccessRow} {sys : Sys}
+    (htab : TableDisciplinedAll rows = true) (hdesc : DescribesAny rows sys) : Disciplined sys := by
+  apply C09_table_disciplined_roles (multi := fun _ => true) (role := fun _ => 0)
+    (rows := rows.map fun r => { r with thread := 0 })
+  · unfold TableDisciplinedRoles
+    unfold TableDisciplinedAll at htab
+    simpa [rowsOK] using htab
+  · intro t pc x w h
+    obtain ⟨r, hr, hx, hw, hl⟩ := hdesc t pc x w h
+    exact ⟨{ r with thread := 0 }, List.mem_map.mpr ⟨r, hr, rfl⟩, hx, hw, rfl, hl⟩
+  · intro t₁ t₂ _ _ _ h; cases h
+
+theorem describesAny_of_roles {role : ThreadId → Nat} {rows : List AccessRow} {sys : Sys}
+    (h : DescribesRoles role rows sys) : DescribesAny rows sys := by
+  intro t pc x w ha
+  obtain ⟨r, hr, hx, hw, _, hl⟩ := h t pc x w ha
+  exact ⟨r, hr, hx, hw, hl⟩
+
+/-- Table check + description + well-bracketed programs ⇒ no reachable data race. -/
+theorem C09_table_no_race {rows : List AccessRow} {sys : Sys} (hwb : WellBracketed sys)
+    (htab : TableDisciplined rows = true) (hdesc : Describes rows sys) :
+    ∀ σ, Reachable sys σ → ¬ DataRace sys σ :=
+  C09_disciplined_no_race hwb (C09_table_disciplined htab hdesc)
+
+/-- The table computed from the programs themselves decides the discipline (sound checker for
+concrete systems). -/
+theorem disciplinedB_sound {sys : Sys} (h : disciplinedB sys = true) : Disciplined sys :=
+  C09_table_disciplined h (sysRows_describes sys)
+
+/-- …and it is complete: the lock-set discipline is decidable. -/
+theorem disciplinedB_iff (sys : Sys) : disciplinedB sys = true ↔ Disciplined sys := by
+  refine ⟨disciplinedB_sound, ?_⟩
+  intro hd
+  unfold disciplinedB TableDisciplined
+  rw [List.all_eq_true]
+  intro r₁ h₁
+  rw [List.all_eq_true]
+  intro r₂ h₂
+  obtain ⟨p₁, ha₁, hl₁⟩ := of_mem_sysRows h₁
+  obtain ⟨p₂, ha₂, hl₂⟩ := of_mem_sysRows h₂
+  by_cases ht : r₁.thread = r₂.thread
+  · simp [ht]
+  · by_cases hx : r₁.loc = r₂.loc
+    · by_cases hw : (r₁.write || r₂.write) = true
+      · rw [← hx] at ha₂
+        obtain ⟨l, hm₁, hm₂⟩ := hd _ _ p₁ p₂ _ _ _ ht ha₁ ha₂ hw
+        have : rowsOK r₁ r₂ = true := by
+          unfold rowsOK
+          simp only [Bool.or_eq_true, List.any_eq_true, List.contains_iff_mem]
+          exact Or.inr ⟨l, hl₁ ▸ hm₁, hl₂ ▸ hm₂⟩
+        simp [this]
+      · have : rowsOK r₁ r₂ = true := by
+          unfold rowsOK
+          simp only [Bool.or_eq_true, Bool.not_eq_true']
+          exact Or.inl (Or.inr (by simpa using hw))
+        simp [this]
+    · have : rowsOK r₁ r₂ = true := by
+        unfold rowsOK
+        simp only [Bool.or_eq_true, bne_iff_ne]
+        exact Or.inl (Or.inl hx)
+      simp [this]
+
+instance (sys : Sys) : Decidable (Disciplined sys) :=
+  decidable_of_iff _ (disciplinedB_iff sys)
+
+/-! ## Lock order and deadlock -/
+
+/-- rank of the lock a thread is about to acquire (0 if its next action is not an `acq`) -/
+def waitRank (rank : Lock → Nat) (sys : Sys) (σ : State) (t : ThreadId) : Nat :=
+  match next sys σ t with
+  | some (.acq l) => rank l
+  | _ => 0
+
+/-- If the "acquires `l₂` while holding `l₁`" relation is acyclic — witnessed by a `rank` that
+strictly increases along nested acquisitions — then no reachable state contains a closed
+wait-for set (every thread of the set blocked on a lock held by a thread of the set). No
+assumption on bracketing is needed. -/
+theorem C09_no_lock_cycle_no_deadlock {sys : Sys} {rank : Lock → Nat} (ho : LockOrder sys rank)
+    {σ : State} (hr : Reachable sys σ) : ¬ Deadlock sys σ := by
+  intro ⟨S, hne, hS⟩
+  obtain ⟨m, hm, hmax⟩ := exists_max (waitRank rank sys σ) S hne
+  obtain ⟨l, u, ⟨hnl, hhold⟩, hu⟩ := hS m hm
+  obtain ⟨l', u', ⟨hnl', _⟩, _⟩ := hS u hu
+  have hnest : Nested sys l l' := ⟨u, σ.pc u, hnl', holder_complete hr l u hhold⟩
+  have hlt := ho l l' hnest
+  have := hmax u hu
+  simp only [waitRank, hnl, hnl'] at this
+  exact Nat.lt_irrefl _ (Nat.lt_of_lt_of_le hlt this)
+
+/-- The deadlock of the property text: never are all unfinished threads waiting for locks held
+by unfinished (waiting) threads. -/
+theorem C09_no_total_deadlock {sys : Sys} {rank : Lock → Nat} (ho : LockOrder sys rank)
+    {σ : State} (hr : Reachable sys σ) : ¬ TotalDeadlock sys σ := by
+  intro ⟨⟨t₀, h₀⟩, hall⟩
+  apply C09_no_lock_cycle_no_deadlock ho hr
+  have hmem : ∀ t, Unfinished sys σ t →
+      t ∈ (List.range sys.length).filter (fun t => decide (σ.pc t < (progOf sys t).length)) := by
+    intro t ht
+    rw [List.mem_filter]
+    refine ⟨List.mem_range.mpr (lt_length_of_progOf_ne_nil ?_), by simpa [Unfinished] using ht⟩
+    intro hnil
+    simp [Unfinished, hnil] at ht
+  refine ⟨_, List.ne_nil_of_mem (hmem t₀ h₀), ?_⟩
+  intro t ht
+  rw [List.mem_filter] at ht
+  have hunf : Unfinished sys σ t := by simpa [Unfinished] using ht.2
+  obtain ⟨l, u, hw, hu⟩ := hall t hunf
+  exact ⟨l, u, hw, hmem u hu⟩
+
+/-- PROGRESS. With well-bracketed, balanced programs and a lock order, a reachable state in
+which some thread has not finished always has an enabled step: the system never gets stuck, for
+any number of threads. -/
+theorem C09_progress {sys : Sys} {rank : Lock → Nat} (hwb : WellBracketed sys)
+    (hbal : Balanced sys) (ho : LockOrder sys rank) {σ : State} (hr : Reachable sys σ) :
+    ¬ Stuck sys σ := by
+  intro ⟨hex, hstuck⟩
+  apply C09_no_total_deadlock ho hr
+  refine ⟨hex, ?_⟩
+  intro t ht
+  have hlt : σ.pc t < (progOf sys t).length := ht
+  have hn : next sys σ t = some (progOf sys t)[σ.pc t] := by
+    simp [next, List.getElem?_eq_getElem hlt]
+  cases ha : (progOf sys t)[σ.pc t] with
+  | acq l =>
+    rw [ha] at hn
+    cases hh : σ.holder l with
+    | none => exact absurd (Step.acq t l hn hh) (hstuck _)
+    | some u =>
+      refine ⟨l, u, ⟨hn, hh⟩, ?_⟩
+      apply Nat.lt_of_not_le
+      intro hle
+      have := holder_complete hr l u hh
+      rw [held_of_length_le hle, balanced_progOf hbal u] at this
+      cases this
+  | rel l =>
+    rw [ha] at hn
+    exact absurd (Step.rel t l t hn (rel_by_holder hwb hr hn)) (hstuck _)
+  | access x w =>
+    rw [ha] at hn
+    exact absurd (Step.access t x w hn) (hstuck _)
+
+/-! ## Both hypotheses of the main theorem are needed -/
+
+/-- two threads write location 7 with no lock at all (the shape of the shared self-learned route
+table written by every listener's loop) -/
+def unprotected : Sys := [[.access 7 true], [.access 7 true]]
+
+/-- two threads write location 7, each under a lock — but not the same one -/
+def wrongLock : Sys :=
+  [[.acq 0, .access 7 true, .rel 0],
+   [.acq 1, .access 7 true, .rel 1]]
+
+/-- the same pair under a common lock -/
+def guarded : Sys :=
+  [[.acq 0, .access 7 true, .rel 0],
+   [.acq 0, .access 7 true, .rel 0]]
+
+/-- the state of `wrongLock` after thread 0 and thread 1 each took one step -/
+def wrongLockRace : State := (run wrongLock init [0, 1]).get (by decide)
+
+theorem wrongLockRace_reachable : Reachable wrongLock wrongLockRace :=
+  run_reachable [0, 1] Reachable.init (Option.some_get _).symm
+
+/-- An unprotected write/write pair races (already in the initial state); so does a pair under
+two different locks (well-bracketed, after two steps); neither system is `Disciplined`; the same
+pair with a common lock is `Disciplined` and well-bracketed, hence race free. -/
+theorem C09_undisciplined_races :
+    (Reachable unprotected init ∧ DataRace unprotected init ∧ ¬ Disciplined unprotected) ∧
+    (WellBracketed wrongLock ∧ Reachable wrongLock wrongLockRace ∧
+      DataRace wrongLock wrongLockRace ∧ ¬ Disciplined wrongLock) ∧
+    (WellBracketed guarded ∧ Disciplined guarded ∧
+      ∀ σ, Reachable guarded σ → ¬ DataRace guarded σ) := by
+  refine ⟨⟨Reachable.init, dataRaceB_sound (by decide), ?_⟩,
+    ⟨wellBracketedB_sound (by decide), wrongLockRace_reachable, dataRaceB_sound (by decide), ?_⟩,
+    ⟨wellBracketedB_sound (by decide), disciplinedB_sound (by decide),
+      C09_disciplined_no_race (wellBracketedB_sound (by decide)) (disciplinedB_sound (by decide))⟩⟩
+  · intro h
+    obtain ⟨l, hl, _⟩ := h 0 1 0 0 7 true true (by decide) rfl rfl rfl
+    simp [progOf, unprotected] at hl
+  · intro h
+    obtain ⟨l, hl, hl'⟩ := h 0 1 1 1 7 true true (by decide) rfl rfl rfl
+    simp [progOf, wrongLock, held, stepHeld] at hl hl'
+    exact absurd (hl.symm.trans hl') (by decide)
+
+/-- A `Disciplined` system that is not well-bracketed: thread 1 unlocks a mutex it never locked
+(legal for a Go `sync.Mutex`), which lets thread 2 in while thread 0 is in its critical section. -/
+def unbracketed : Sys :=
+  [[.acq 0, .access 7 true, .rel 0],
+   [.rel 0],
+   [.acq 0, .access 7 true, .rel 0]]
+
+def unbracketedRace : State := (run unbracketed init [0, 1, 2]).get (by decide)
+
+/-- `WellBracketed` cannot be dropped from the main theorem: `unbracketed` obeys the lock-set
+discipline and still reaches a data race. -/
+theorem C09_unbracketed_races :
+    Disciplined unbracketed ∧ ¬ WellBracketed unbracketed ∧
+    Reachable unbracketed unbracketedRace ∧ DataRace unbracketed unbracketedRace := by
+  refine ⟨disciplinedB_sound (by decide), ?_,
+    run_reachable [0, 1, 2] Reachable.init (Option.some_get _).symm, dataRaceB_sound (by decide)⟩
+  intro h
+  have := ((h [.rel 0] (by simp [unbracketed])) 0 0).2 rfl
+  simp at this
+
+/-! ## Deadlock: the order hypothesis is needed -/
+
+/-- the classic: two threads take two locks in opposite orders -/
+def opposite : Sys :=
+  [[.acq 0, .acq 1, .rel 1, .rel 0],
+   [.acq 1, .acq 0, .rel 0, .rel 1]]
+
+def oppositeStuck : State := (run opposite init [0, 1]).get (by decide)
+
+/-- Without a lock order a deadlock is reachable (programs well-bracketed and balanced). -/
+theorem C09_opposite_order_deadlocks :
+    WellBracketed opposite ∧ Balanced opposite ∧
+    Reachable opposite oppositeStuck ∧ Deadlock opposite oppositeStuck := by
+  refine ⟨wellBracketedB_sound (by decide), balancedB_sound (by decide),
+    run_reachable [0, 1] Reachable.init (Option.some_get _).symm, ?_⟩
+  refine ⟨[0, 1], by simp, ?_⟩
+  intro t ht
+  simp only [List.mem_cons, List.not_mem_nil, or_false] at ht
+  rcases ht with rfl | rfl
+  · exact ⟨1, 1, ⟨by decide, by decide⟩, by simp⟩
+  · exact ⟨0, 0, ⟨by decide, by decide⟩, by simp⟩
+
+/-- …and indeed no rank exists for it. -/
+theorem opposite_no_order (rank : Lock → Nat) : ¬ LockOrder opposite rank := by
+  intro h
+  have h01 : rank 0 < rank 1 := h 0 1 ⟨0, 1, rfl, by decide⟩
+  have h10 : rank 1 < rank 0 := h 1 0 ⟨1, 1, rfl, by decide⟩
+  omega
+
+/-! ## Non-vacuity: three threads, two locks, all hypotheses at once -/
+
+/-- Thread 0 nests lock 1 inside lock 0; thread 1 takes them one after the other; thread 2 takes
+only lock 1 and also touches location 3, which nobody else uses. Location 1 is guarded by lock 0,
+location 2 by lock 1. -/
+def demo : Sys :=
+  [[.acq 0, .access 1 true, .acq 1, .access 2 true, .rel 1, .rel 0],
+   [.acq 0, .access 1 false, .rel 0, .acq 1, .access 2 true, .rel 1],
+   [.acq 1, .access 2 false, .rel 1, .access 3 true]]
+
+theorem demo_wellBracketed : WellBracketed demo := wellBracketedB_sound (by decide)
+theorem demo_disciplined : Disciplined demo := disciplinedB_sound (by decide)
+theorem demo_balanced : Balanced demo := balancedB_sound (by decide)
+theorem demo_lockOrder : LockOrder demo (fun l => l) := lockOrderB_sound (by decide)
+
+/-- a state in the middle of a run: thread 0 holds both locks and is about to write location 2,
+thread 1 waits for lock 0, thread 2 waits for lock 1 -/
+def demoMid : State := (run demo init [0, 0, 0]).get (by decide)
+
+theorem demoMid_reachable : Reachable demo demoMid :=
+  run_reachable [0, 0, 0] Reachable.init (Option.some_get _).symm
+
+/-- the main theorem and the deadlock/progress theorems apply to `demo` -/
+example : ∀ σ, Reachable demo σ → ¬ DataRace demo σ :=
+  C09_disciplined_no_race demo_wellBracketed demo_disciplined
+
+example : ¬ DataRace demo demoMid ∧ ¬ Deadlock demo demoMid ∧ ¬ Stuck demo demoMid :=
+  ⟨C09_disciplined_no_race demo_wellBracketed demo_disciplined _ demoMid_reachable,
+   C09_no_lock_cycle_no_deadlock demo_lockOrder demoMid_reachable,
+   C09_progress demo_wellBracketed demo_balanced demo_lockOrder demoMid_reachable⟩
+
+/-- `held_sound` / `mutual_exclusion` are about non-empty held-sets there: thread 0's syntactic
+held-set at `demoMid` is `[1, 0]` and the holder map agrees; threads 1 and 2 are really blocked
+(`Waits`), yet this is not a deadlock because thread 0 can move. -/
+example : held (progOf demo 0) (demoMid.pc 0) = [1, 0] ∧
+    demoMid.holder 0 = some 0 ∧ demoMid.holder 1 = some 0 ∧
+    Waits demo demoMid 1 0 0 ∧ Waits demo demoMid 2 1 0 := by
+  refine ⟨by decide, by decide, by decide, ⟨by decide, by decide⟩, ⟨by decide, by decide⟩⟩
+
+example : demoMid.holder 1 = some 0 :=
+  held_sound demo_wellBracketed demoMid_reachable 0 1 (by decide)
+
+example : (1 : Lock) ∉ held (progOf demo 2) (demoMid.pc 2) :=
+  mutual_exclusion demo_wellBracketed demoMid_reachable (t₁ := 0) (t₂ := 2) (by decide) 1 (by decide)
+
+example : demoMid.holder 1 ≠ some 2 :=
+  acq_not_self demo_wellBracketed demoMid_reachable (t := 2) (l := 1) (by decide)
+
+example : (0 : Lock) ∈ held (progOf demo 0) (demoMid.pc 0) :=
+  holder_complete demoMid_reachable 0 0 (by decide)
+
+example : ¬ TotalDeadlock demo demoMid := C09_no_total_deadlock demo_lockOrder demoMid_reachable
+
+/-- one step later thread 0's next action is `rel 1`: it is the holder, the step is enabled -/
+def demoRel : State := (run demo init [0, 0, 0, 0]).get (by decide)
+
+example : demoRel.holder 1 = some 0 :=
+  rel_by_holder demo_wellBracketed
+    (run_reachable [0, 0, 0, 0] Reachable.init (Option.some_get _).symm) (t := 0) (by decide)
+
+/-- the discipline is decidable -/
+example : Disciplined demo := by decide
+example : ¬ Disciplined wrongLock := by decide
+example : ¬ Disciplined unprotected := by decide
+
+/-- a hand-written table for `demo`, the way the extractor would print it (row locks may be a
+subset of what is held: thread 0's write of location 2 is listed with lock 1 only) -/
+def demoTable : List AccessRow :=
+  [⟨1, true, [0], 0⟩, ⟨2, true, [1], 0⟩,
+   ⟨1, false, [0], 1⟩, ⟨2, true, [1], 1⟩,
+   ⟨2, false, [1], 2⟩, ⟨3, true, [], 2⟩]
+
+theorem demoTable_describes : Describes demoTable demo := describesB_sound (by decide)
+
+/-- the bridge applies: table check by `decide`, description proved above -/
+example : Disciplined demo := C09_table_disciplined (by decide) demoTable_describes
+
+example : ∀ σ, Reachable demo σ → ¬ DataRace demo σ :=
+  C09_table_no_race demo_wellBracketed (by decide) demoTable_describes
+
+/-- the table check is not vacuous: drop the lock from one row and it fails -/
+example : TableDisciplined
+    [⟨1, true, [0], 0⟩, ⟨2, true, [], 0⟩, ⟨1, false, [0], 1⟩, ⟨2, true, [1], 1⟩] = false := by decide
+
+/-- Roles: the table of `guarded` has ONE role (0, "the loop") run by both threads. With the
+role marked `multi` the check passes only because the row holds a lock; the same row without a
+lock is rejected; with `multi = false` it would be (wrongly, for two instances) accepted — which
+is why `SingleInstance` is a hypothesis. -/
+example : Disciplined guarded :=
+  C09_table_disciplined_roles (multi := fun _ => true) (role := fun _ => 0)
+    (rows := [⟨7, true, [0], 0⟩]) (by decide) (describesRolesB_sound (by decide))
+    (singleInstanceB_sound (by decide))
+
+/-- the same with the `thread` column ignored altogether -/
+example : Disciplined guarded :=
+  C09_table_disciplined_all (rows := [⟨7, true, [0], 0⟩]) (by decide)
+    (describesAny_of_roles (describesRolesB_sound (role := fun _ => 0) (by decide)))
+
+example : TableDisciplinedRoles (fun _ => true) [⟨7, true, [], 0⟩] = false := by decide
+example : TableDisciplinedRoles (fun _ => false) [⟨7, true, [], 0⟩] = true := by decide
+example : TableDisciplinedAll [⟨7, true, [0], 0⟩, ⟨7, false, [0, 1], 5⟩] = true := by decide
+example : TableDisciplinedAll [⟨7, true, [0], 0⟩, ⟨7, false, [1], 5⟩] = false := by decide
+
 end Props.C09
